@@ -396,8 +396,21 @@ func RunParent(c Check, o Options) int {
 				// the worker died: attribute to the case it had started but not finished
 				full := tailOf(logPath, 200000)
 				tail := full
-				if len(tail) > 8000 {
-					tail = tail[:8000]
+				if i := strings.Index(tail, "CASE-WATCHDOG"); i >= 0 {
+					// a goroutine dump: those with a frame of the code under test or of the check come first
+					blocks := strings.Split(tail[i:], "\n\n")
+					var first, rest []string
+					for bi, b := range blocks {
+						if bi == 0 || strings.Contains(b, "github.com/sdcio/data-server/") || strings.Contains(b, "verifharness/internal/checks") {
+							first = append(first, b)
+						} else {
+							rest = append(rest, b)
+						}
+					}
+					tail = strings.Join(append(first, rest...), "\n\n")
+				}
+				if len(tail) > 16000 {
+					tail = tail[:16000]
 				}
 				if lastStart == nil {
 					harnessErr <- fmt.Sprintf("worker %d died before starting a case: %v\n%s", wi, werr, tail)
